@@ -12,9 +12,10 @@ BV = "include/chaiscript/dispatchkit/boxed_value.hpp"
 CH = "include/chaiscript/dispatchkit/boxed_cast_helper.hpp"
 
 KINDMAP = {"bad_any_cast": "K_bad_any_cast", "runtime_error": "K_runtime_error"}
+# (the Equation guard raises eval_error: allowed kind added to VERIF_ALLOWED below)
 
 HEADER = r'''
-#define VERIF_ALLOWED (KBIT(K_bad_any_cast) | KBIT(K_runtime_error))
+#define VERIF_ALLOWED (KBIT(K_bad_any_cast) | KBIT(K_runtime_error) | KBIT(K_eval_error))
 #include "verif_prelude.h"
 int verif_thrown;
 /* A7: std::type_info is an opaque identity; operator== on type_info objects is identity of
@@ -276,6 +277,52 @@ def build(prop, tier="quick"):
     c = C("Data_assign")
     kb.emit_function("void Data_assign(Data *self, const Data *rhs)", sl, r, c.fn, c.loops, "Data_assign")
 
+    # --- the evaluator's own guard in front of every assignment form (=, :=, op=): Equation_AST_Node::eval_internal.
+    # Sub-statement extraction: the if / else-if chain that starts with `if (params[0].is_return_value())`; what is
+    # dropped is everything after it (the assignment itself), which the contract treats as "may modify the lhs".
+    ev = chai2c.Header("include/chaiscript/language/chaiscript_eval.hpp")
+    est = ev.slice_block("struct Equation_AST_Node")
+    em = ev.masked
+    gs = em.find("if (params[0].is_return_value())", est.ob, est.cb)
+    if gs < 0:
+        raise ExtractionBreak("Equation_AST_Node::eval_internal: guard chain `if (params[0].is_return_value())` not found")
+    pos = gs
+    while True:
+        mm = re.match(r"if\s*\(", em[pos:])
+        if not mm:
+            raise ExtractionBreak("Equation guard chain: `if (` expected")
+        cp = chai2c.match_brace(em, pos + mm.end() - 1, "(", ")")
+        ob2 = em.index("{", cp)
+        if em[cp + 1:ob2].strip():
+            raise ExtractionBreak("Equation guard chain: unbraced branch")
+        cb2 = chai2c.match_brace(em, ob2)
+        nxt = re.match(r"\s*else\s+(?=if\b)", em[cb2 + 1:])
+        if nxt:
+            pos = cb2 + 1 + nxt.end()
+            continue
+        if re.match(r"\s*else\b", em[cb2 + 1:]):
+            raise ExtractionBreak("Equation guard chain: plain else branch not in the rule set")
+        break
+    gsl = chai2c.Slice(ev, "Equation_AST_Node::eval_internal guard chain", gs, gs, cb2)
+    gsl.body = chai2c.strip_comments(ev.text[gs:cb2 + 1])
+    gr = base_rules()
+    gr.add("R2.p0_rv", r"\bparams\[0\]\.is_return_value\(\)", "Boxed_Value_is_return_value(lhs)", min_fire=1)
+    gr.add("R2.p0_const", r"\bparams\[0\]\.is_const\(\)", "Boxed_Value_is_const(lhs)")
+    gr.add("R2.p0_undef", r"\bparams\[0\]\.is_undef\(\)", "Type_Info_is_undef(&lhs->m_data->m_type_info)")
+    gr.add("R2.p0_arith", r"\bparams\[[01]\]\.get_type_info\(\)\.is_arithmetic\(\)", "verif_nondet_bool()")
+    gr.add("R7.opers", r"\bOperators::Opers::(\w+)", r"Opers_\1")
+    ethr = throw_rule({"eval_error": "K_eval_error"}, "include/chaiscript/language/chaiscript_eval.hpp")
+
+    def gpre(b):
+        b2, n = ethr(b, "Equation_guard")
+        if n < 1:
+            raise ExtractionBreak("Equation guard chain: no throw found")
+        return b2
+    ops = re.findall(r"\bOperators::Opers::(\w+)", gsl.body)
+    kb.add("enum { Opers_invalid = 0" + "".join(", Opers_%s = %d" % (o, k + 1) for k, o in enumerate(sorted(set(ops) - {"invalid"}))) + " };")
+    c = C("Equation_guard")
+    kb.emit_function("void Equation_guard(const Boxed_Value *lhs, int m_oper)", gsl, gr, c.fn, c.loops, "Equation_guard", pre=gpre)
+
     # --- targets (everything is loop-free and tiny: callees are inlined, each function is
     # still proved against its own contract)
     def H(cname, decl, call, replace=()):
@@ -300,6 +347,8 @@ def build(prop, tier="quick"):
     for cn in ("cast_const_ptr", "cast_ptr", "cast_const_ref", "cast_ref", "cast_rref"):
         H(cn, "Boxed_Value *b;", "%s(b)" % cn)
     H("Data_assign", "Data *d; const Data *r;", "Data_assign(d, r)")
+    if prop == "C07":
+        H("Equation_guard", "Boxed_Value *b; int o;", "Equation_guard(b, o)")
     kb.assumptions += [
         "A7: std::type_info equality is identity of the type (modelled as an id comparison)",
         "std::shared_ptr<Data> is a plain pointer here; chaiscript::detail::Any (m_obj) and attributes (m_attrs) are dropped from Data - "
